@@ -89,6 +89,13 @@ def states(tier, seed):
             out.append({"rel": "S1", "kind": k, "heavyness": h, "scheme": sc, "pto": 1, "Q2": 30.0, "s2w": 0.5, "pol": -0.3, "prc": 0.1, "projectile": "positron", "xtra": xtra})
         for k, pair in itertools.product(("F2", "F3", "FL"), ("nu", "e")):
             out.append({"rel": "S3", "kind": k, "heavyness": h, "scheme": sc, "pto": 1, "Q2": 30.0, "ckm": "dense", "pair": pair, "xtra": xtra})
+    # combinations: PTO 2 + TMC + nuclear target (+ FONLL / FFN0 for the conjugation relation)
+    for xtra, sc in itertools.product([{"tmc": 1, "target": "iron"}, {"tmc": 3, "target": "lead"}], ["ZM-VFNS", "FFNS3", "FONLL-FFNS4", "FFN03"]):
+        pto = 2 if sc in ("ZM-VFNS", "FFNS3") else 1
+        for k in ("F2", "F3"):
+            out.append({"rel": "S2", "kind": k, "heavyness": "total", "scheme": sc, "pto": pto, "Q2": 30.0, "pol": 0.7, "process": "NC", "xtra": xtra})
+            out.append({"rel": "S3", "kind": k, "heavyness": "total", "scheme": sc, "pto": pto, "Q2": 30.0, "ckm": "dense", "pair": "e", "xtra": xtra})
+            out.append({"rel": "S1", "kind": k, "heavyness": "total", "scheme": sc, "pto": pto, "Q2": 30.0, "s2w": 0.5, "pol": -0.3, "prc": 0.1, "projectile": "positron", "xtra": xtra})
     # S4
     for k, h, pto, q2, proc, pol in itertools.product(SF_KINDS, ["light", "total"], ptos if quick else [0, 1, 2, 3], [2.0, 10.0, 30.0, 1e5], ["EM", "NC"], [0.0, 0.7]):
         if quick and (pol == 0.7) != (proc == "NC"):
